@@ -31,7 +31,7 @@ def run(chk):
     chk.explanation = ('P: _ObjectFamily.add preserves the representation invariant "latest_version carries the greatest modified time of all versions held; '
                        'all_versions gains exactly the added version" (stated over the whole key set); memory._add hands its own allow_custom/version to '
                        'every recursive call and to parse (list => each element, bundle => its members).  B: every add-history of length <= 3 (quick, triples sampled) / <= 4 '
-                       '(thorough, quadruples sampled) over a 16-object pool (several versions per id in any order, equal instants spelled differently, duplicates, '
+                       '(thorough, quadruples sampled) over a 17-object pool, with reads between the additions, (several versions per id in any order, equal instants spelled differently, duplicates, '
                        'unversioned SCO / marking, registered custom, unregistered custom kept as dictionaries, both spec versions, upper-case hex ids) in 6 input '
                        'forms, on MemoryStore and FileSystemStore against a list model: get = greatest modified, all_versions = every distinct version, type query, '
                        'content out == content in, save_to_file/load_from_file round trip, file names injective on distinct serialized instants.')
@@ -65,8 +65,17 @@ def run(chk):
                     except DataSourceError as ex:
                         if D.version_key(d) not in model.items: return ('fs#refuses a new version', f'{[(labels[i], f) for i, f in hist]}: filesystem sink refused {label}: {ex}', {})
                     model.add(d)
+                    if len(hist) > 1 and (idx, form) != hist[-1]:
+                        # a read between additions must not change what later additions make visible: visit every type and id held so far
+                        for st in (mem, fs):
+                            for k in list(model.items):
+                                st.get(k[0]); st.all_versions(k[0])
+                            for t in {k[0].split('--')[0] for k in model.items}: st.query([Filter('type', '=', t)])
                 ids = {k[0] for k in model.items}
                 for sname, st in (('memory', mem), ('filesystem', fs)):
+                    if len(ids) > 1:
+                        gq = sorted((D.version_key(o) for o in st.query([Filter('id', 'in', sorted(ids))])), key=repr); wq = sorted(model.items, key=repr)
+                        if gq != wq: return (f'{sname}#query == stored objects satisfying it', f'{[(labels[i], f) for i, f in hist]}: {sname}.query(id in all ids) = {gq}, list model {wq}', {})
                     for oid in ids:
                         got_all = sorted((D.version_key(o) for o in st.all_versions(oid)), key=repr)
                         if got_all != model.all_versions(oid):
@@ -93,7 +102,7 @@ def run(chk):
                 shutil.rmtree(root, ignore_errors=True)
             return None
         chk.bounded('add histories x input forms x both stores vs list model', list(histories()), check, classify=lambda h: tuple(i for i, _ in h),
-                    bound='16-object pool, 6 input forms rotated over the positions, histories of length <= ' + ('4 (all triples, every 31st quadruple)' if chk.tier == 'thorough' else '3 (all pairs, every 9th triple)'))
+                    bound='17-object pool, reads between additions, 6 input forms rotated over the positions, histories of length <= ' + ('4 (all triples, every 31st quadruple)' if chk.tier == 'thorough' else '3 (all pairs, every 9th triple)'))
         # file names are injective on distinct serialized instants
         import stix2.datastore.filesystem as FSM, stix2.utils as SU, datetime as dtm
         seen = {}
